@@ -18,9 +18,11 @@ from mc import core, fordrun
 from mc.core import Stats
 
 PROP = "C06"
-KINDS = ["type", "subroutine", "function", "generic", "absint", "variable"]
+KINDS = ["type", "subroutine", "function", "generic", "absint", "variable", "ctor"]
 TABLE = {"type": "types", "subroutine": "procs", "function": "procs", "generic": "procs", "absint": "absinterfaces", "variable": "vars"}
-PREFIX = {"type": "t", "subroutine": "s", "function": "f", "generic": "g", "absint": "a", "variable": "v"}
+PREFIX = {"type": "t", "subroutine": "s", "function": "f", "generic": "g", "absint": "a", "variable": "v", "ctor": "k"}
+# "ctor" = a derived type and a generic interface (structure-constructor overload) sharing one name: one identifier
+# that lives in two of FORD's tables (types and procs)
 FORMS = ["plain", "only", "rename", "only+rename", "prefix", "dcolon-only", "two-stmts", "only-empty", "only-upper", "only-twice"]
 
 
@@ -105,6 +107,11 @@ class Mod:
                 L.append(f"  integer :: {n}")
             elif k == "absint":
                 L += ["  abstract interface", f"    subroutine {n}()", f"    end subroutine {n}", "  end interface"]
+            elif k == "ctor":
+                L += [f"  type {n}", "    integer :: c", f"  end type {n}", f"  interface {n}", f"    module procedure {n}_i", "  end interface"]
+                if self.default != "private":
+                    L.append(f"  private :: {n}_i")
+                cont += [f"  function {n}_i(x) result(r)", "    real, intent(in) :: x", f"    type({n}) :: r", "    r%c = int(x)", f"  end function {n}_i"]
             elif k == "generic":
                 L += [f"  interface {n}", f"    module procedure {n}_i", "  end interface"]
                 if self.default != "private":
@@ -126,7 +133,7 @@ def use_semantics(E, modname, form, tag):
     first = {}
     for n in names:
         first.setdefault(E[n][2], n)
-    half = [n for n in names if E[n][2] in ("type", "function", "variable")]
+    half = [n for n in names if E[n][2] in ("type", "function", "variable", "ctor")]
     ren = [(f"l{tag}{E[first[k]][2][0]}", first[k]) for k in ("type", "subroutine") if k in first]
     imp = {}
     if form == "plain":
@@ -209,7 +216,7 @@ def consumer_source(kind, used, tagc="z"):
     decl, body = [], []
     for n, e in sorted(imp.items()):
         k = e[2]
-        if k == "type":
+        if k in ("type", "ctor"):
             decl.append(f"type({n}) :: cv_{n}")
         elif k == "absint":
             decl.append(f"procedure({n}), pointer :: pp_{n}")
@@ -281,13 +288,17 @@ def table_of(scope, which, alphabet):
 def expected_tables(visible):
     out = {"types": {}, "procs": {}, "vars": {}, "absinterfaces": {}}
     for n, (dm, on, k) in visible.items():
-        out[TABLE[k]][n] = (dm, on)
+        if k == "ctor":
+            out["types"][n] = (dm, on)
+            out["procs"][n] = (dm, on)
+        else:
+            out[TABLE[k]][n] = (dm, on)
     return out
 
 
 def run_case(st: Stats, case, perms):
-    topo, dA, forms, dB, consumer, hide = case
-    A = Mod("ma", dA, "a")
+    topo, dA, forms, dB, consumer, hide, *rest = case
+    A = Mod(rest[0] if rest else "ma", dA, "a")
     mods = [A]
     if topo == "single":
         used = [(A, forms[0])]
@@ -329,7 +340,7 @@ def run_case(st: Stats, case, perms):
         st.evaluations += 1
         st.transitions += 1
         inp = dict(case=list(case), order=list(perm), files=files)
-        feats = dict(topo=topo, forms=",".join(forms), dA=dA, dB=dB, consumer=consumer, hide=hide, only_twice="only-twice" in forms,
+        feats = dict(topo=topo, forms=",".join(forms), dA=dA, dB=dB, consumer=consumer, hide=hide, only_twice="only-twice" in forms, aname=A.name,
                      order_is_sorted=list(perm) == names)
         if r.error is not None or "ERROR in file" in r.log or "Error parsing" in r.log:
             st.violation("ford-failed", stratum, feats, inp, (repr(r.error) + r.log[-300:]), "parses and correlates")
@@ -369,7 +380,7 @@ def run_case(st: Stats, case, perms):
             if v.name.startswith("cv_") or v.name.startswith("pp_"):
                 slot_obs[v.name] = ident(v.proto[0]) if v.proto else None
         for n, (dm, on, k) in cimp.items():
-            if k == "type":
+            if k in ("type", "ctor"):
                 if slot_obs.get(f"cv_{n}") != (dm, on):
                     bad.append(("slot-variable-type", f"cv_{n}", slot_obs.get(f"cv_{n}"), (dm, on)))
             if k == "absint" and consumer != "ifacebody":
@@ -422,6 +433,13 @@ def gen_cases(tier):
             yield ("fan", dA, (f1, f2), "none", "program", False)
         for f1, f2 in itertools.product(["only", "rename", "only+rename", "two-stmts"], repeat=2):
             yield ("double", dA, (f1, f2), "none", "modproc", False)
+        # a project module whose name is also that of an intrinsic / well-known third-party module: the project's wins
+        for aname in ("mpi", "iso_fortran_env"):
+            for f in ("plain", "prefix", "only", "only+rename"):
+                for c in ("modproc", "program"):
+                    yield ("single", dA, (f,), "none", c, False, aname)
+                for f2 in ("plain", "only", "rename") if tier == "thorough" else ("plain",):
+                    yield ("chain2", dA, (f, f2), "none", "modproc", False, aname)
 
 
 def work(args):
